@@ -407,6 +407,36 @@ func (u *Unit) evalGhostCall(call *ast.CallExpr, f *types.Func, st *State) []Val
 		j := fmt.Sprintf("q_j!%d", u.reg.counter)
 		la, lc := u.sliceLen(a), u.sliceLen(c)
 		return b(and(eq(la, lc), fmt.Sprintf("(forall ((%s Int)) (=> (and (<= 0 %s) (< %s %s)) (= (select (arr_%s %s) %s) (select (arr_%s %s) %s))))", j, j, j, la, a.S, a.T, j, c.S, c.T, j)))
+	case "typeOK":
+		x := u.evalExpr(call.Args[0], st)
+		pt, ok := typeOf(u.info, call.Args[0]).Underlying().(*types.Pointer)
+		if !ok {
+			u.fail("typeOK() needs a pointer argument (%s)", u.pos(call))
+		}
+		key := typeKey(pt.Elem())
+		conj := []string{}
+		for _, ti := range u.prog.CS.TypeInvs {
+			if ti.Pkg+"."+ti.Type != key {
+				continue
+			}
+			sf := u.specFn(ti.Clause)
+			info := u.prog.Pkgs[sf.Pkg].TypesInfo
+			bind := map[*types.Var]Val{}
+			for _, fl := range sf.Decl.Type.Params.List {
+				for _, n := range fl.Names {
+					if v, ok := info.Defs[n].(*types.Var); ok {
+						bind[v] = x
+					}
+				}
+			}
+			saved, savedInfo := u.specBind, u.info
+			u.specBind, u.info = bind, info
+			ret := sf.Decl.Body.List[0].(*ast.ReturnStmt)
+			v := u.evalExpr(ret.Results[0], st)
+			u.specBind, u.info = saved, savedInfo
+			conj = append(conj, v.T)
+		}
+		return b(and(not(eq(x.T, "0")), and(conj...)))
 	case "allocated":
 		x := u.evalExpr(call.Args[0], st)
 		return b("(<= " + x.T + " " + st.alloc + ")")
